@@ -302,6 +302,31 @@ func runReplay(o *drv.Out, fo *failOnce, scheme string) {
 			}
 		}
 	}
+	// second mechanical family: each schema field set to another value under the ORIGINAL signature
+	if scheme == schemes[0] || o.Tier == "thorough" {
+		fv, unsupported := fieldValueVariants(tx1)
+		for _, u := range unsupported {
+			o.Count("field-value-unsupported:" + u)
+		}
+		if len(unsupported) > 0 {
+			o.Extra["field_value_family_does_not_cover"] = unsupported
+		}
+		for _, v := range fv {
+			before, _ := s.c.account(rcp)
+			s.block([][]byte{v.raw}, true)
+			after, _ := s.c.account(rcp)
+			o.Count("variant:" + v.kind)
+			o.Nontrivial(scheme + "|" + v.kind + "|" + v.desc)
+			if after > before {
+				o.Count("variant-accepted:" + v.kind)
+				field := v.kind[len("field-value:"):]
+				fo.fail("C06:replay-by-unsigned-field:"+field, fmt.Sprintf("%s: the signature of an included send also authorises the transaction with %s (recipient %d -> %d): the field is outside the sign bytes", scheme, v.desc, before, after),
+					map[string]any{"scheme": scheme, "field": field, "change": v.desc, "included": drv.Hex(raw1), "replayed": drv.Hex(v.raw), "recipient_before": before, "recipient_after": after})
+			} else {
+				o.Count("variant-rejected:" + v.kind)
+			}
+		}
+	}
 	o.Hist["replays-executed:"+scheme] = executed
 	// same block: two different re-encodings in one block; the same bytes twice in one block
 	if len(reserve) >= 3 {
